@@ -383,6 +383,10 @@ func runCheck(id, tier, repoDir, verifDir string, debug, claim, keep bool) int {
 			nOb++
 			solverTime += ob.TimeS
 			recs = append(recs, oblRecord{ob.Name, ob.Kind, ob.Status, ob.Solver, round3(ob.TimeS), ob.Desc, ""})
+			if ob.Status == "unsat" && isDeclaredDead(r.Contract, ob.Name) {
+				nDis++
+				continue
+			}
 			if ob.Status == "unsat" {
 				// vacuous: assumptions contradictory or sink/return unreachable
 				report(ob, r.VC, "vacuity guard: the assumptions are contradictory or this point is unreachable, so obligations here would pass vacuously")
@@ -482,3 +486,15 @@ func loadClaims(path string) map[string]bool {
 }
 
 var extraChecks = map[string]func(w *World, cfg *solveCfg) []*Obligation{}
+
+func isDeclaredDead(ct *Contract, name string) bool {
+	if ct == nil {
+		return false
+	}
+	for _, d := range ct.Dead {
+		if strings.HasSuffix(name, "@"+d) || strings.Contains(name, "@"+d+"#") {
+			return true
+		}
+	}
+	return false
+}
